@@ -57,7 +57,7 @@ def run(ctx):
         v["family"] = "seq"
     seq_eval = ctx.cov.pop("evaluations", 0)
     ctx.viol = viol_sched + list(ctx.viol)
-    merged = dict(ctx.cov.get("predicates", {}))
+    merged = {k: n for k, n in ctx.cov.get("predicates", {}).items() if k.startswith("Seq")}   # C11's own
     merged.update(pr_sched)
     ctx.cov["predicates"] = merged
     ctx.cov["evaluations"] = len(calls) + seq_eval
